@@ -264,6 +264,9 @@ func CanonTV(tv *sdcpb.TypedValue) string {
 
 // CanonDecimal renders digits/10^precision without trailing fraction zeros ("-1.5", "3").
 func CanonDecimal(d *sdcpb.Decimal64) string {
+	if d.GetPrecision() > 40 {
+		return fmt.Sprintf("%de-%d", d.GetDigits(), d.GetPrecision()) // not a decimal64; avoid computing 10^precision
+	}
 	r := new(big.Rat).SetFrac(big.NewInt(d.GetDigits()), new(big.Int).Exp(big.NewInt(10), big.NewInt(int64(d.GetPrecision())), nil))
 	s := r.FloatString(int(d.GetPrecision()))
 	if strings.Contains(s, ".") {
